@@ -48,6 +48,7 @@ def run(ctx):
     rng = ctx.rng
     quick = ctx.quick()
     texts = [t for t in all_texts("ab", 4 if quick else 6)]
+    texts += [E2 + "a" + E2 + "a", E2 + E2 + "a" + E2, "a" + E2 + "a" + E3 + "aa", E4 + E4 + "ab" + E4]      # matches of several bytes: a window counts MATCHES
     texts += ["aaaaaaa", "abaabaaab", "aa\naa\naaa", "a a aa aaa", "AB ab Ab ab", "aAaA", "a\nA\na"]
     bodies = list(BODIES)
     g = genprog.ProgGen(rng, allow_global=False, allow_named=False)
